@@ -845,8 +845,17 @@ def r5(ctx):
         e = vf.expr(fn, r.args[0])
         guarded = es.Guards(fn, r).nonzero(e)
         kids.append((vf.last_field(e[1]) if e[0] == "load" else None, guarded, vf.expr(fn, r.args[1]) == ("arg", 1) and vf.expr(fn, r.args[2]) == ("arg", 2)))
-    ctx.check(sorted(k[0] for k in kids) == ["trie_node.lchild", "trie_node.rchild"] and all(k[1] and k[2] for k in kids), "C02.R5", "each-child-once", "%s:%d" % (fn.relfile, fn.line),
-              "recursion: %s" % kids, key="C02.R5:children")
+    # a child may also be visited by going round a loop with the node variable moved to that child (tail call written as a loop)
+    looped = []
+    for ph in [i for i in fn.all_insts() if i.op == "phi"]:
+        incs = [vf.expr(fn, v) for v, b in ph["inc"]]
+        if ("arg", 0) in incs:
+            for e in incs:
+                if e[0] == "load" and e[1][0] == "fld" and e[1][1] == ("phi", ph.id) and vf.last_field(e[1]) in ("trie_node.lchild", "trie_node.rchild"):
+                    looped.append(vf.last_field(e[1]))
+    visited = sorted([k[0] for k in kids] + looped)
+    ctx.check(visited == ["trie_node.lchild", "trie_node.rchild"] and all(k[1] and k[2] for k in kids), "C02.R5", "each-child-once", "%s:%d" % (fn.relfile, fn.line),
+              "recursion: %s; by moving the node variable in a loop: %s" % (kids, looped), key="C02.R5:children")
     # pfx_table_get_root hands out the root of the family asked for
     gr = pdb.fn("pfx_table_get_root")
     ctx.touch(gr)
